@@ -18,6 +18,23 @@ The renderings are taken in two generalities:
   entries of unknown kinds anywhere.
 * `sdlOf ex a` / `introOf bs a`: one concrete rendering each (definitions grouped by kind), with the
   parameters `ex` (explicit `schema` block or not) and `bs` (which built-in scalars are listed).
+
+Main results (all about the model's own `Sdl.fromSdl`, `Intro.fromIntro`, `Intro.fromJson`):
+
+* `sdl_spec`, `intro_spec` — each front-end returns `.ok a.toSchema` on every rendering;
+* `frontends_equal_of_renderings` — hence equality, for arbitrary interleavings;
+* `frontends_equal` (`frontends_equal'`, `frontends_value`) — the concrete renderings;
+* `parseIntro_json` — the serde decoder is the identity on the JSON text of an introspection value
+  (any value, not only renderings), up to the `ofType` recursion limit; `frontends_equal_json` — equality
+  at the level of `fromJson`;
+* `example`s: a non-trivial instance evaluated by the kernel on both sides, a shuffled rendering of it,
+  and witnesses that no hypothesis of `WfAS` (nor `DefaultRoots`, nor the depth bound) can be dropped.
+
+Proof structure: (1) the name table — `namesInsert` commutes for distinct keys (`namesInsert_comm`), so a
+fold of insertions only depends on the entries up to permutation (`insAll_perm`); both pipelines insert a
+permutation of `a.pairs` (`sdl_names`, `intro_names`), and every lookup happens after the table is complete;
+(2) each pass has a closed form (`sdl_*`, `intro_*`), ids being positions within the kind and field ids
+being assigned interfaces-first in both pipelines; (3) assembly.
 -/
 namespace GqlVerif
 namespace C07
@@ -1240,6 +1257,286 @@ example :
       .error (.panic "failed to resolve TypeId for `Nope`") ∧
     Intro.fromIntro true (some (introOf [] { objects := [⟨"O", [], [⟨"f", .named "Nope", none⟩]⟩] })) =
       .error (.panic "schema.names.get(name)") := ⟨by rfl, by rfl⟩
+
+/-! ## from the JSON text
+
+`Intro.fromJson` = serde decoding (`parseIntro`) followed by `fromIntro`.  The decoder is the identity on the
+JSON text of an introspection value, up to the recursion limit on `ofType` chains. -/
+
+section JsonText
+open Intro
+
+
+def jOptStr : Option String → Json | none => .null | some s => .str s
+def jOptBool : Option Bool → Json | none => .null | some b => .bool b
+def jOpt {α} (r : α → Json) : Option α → Json | none => .null | some v => r v
+def jArr {α} (r : α → Json) (l : List α) : Json := .arr (l.map r)
+
+def jsonTypeRef : TypeRef → Json
+  | .mk k n none => .obj [("kind", jOptStr k), ("name", jOptStr n), ("ofType", .null)]
+  | .mk k n (some t) => .obj [("kind", jOptStr k), ("name", jOptStr n), ("ofType", jsonTypeRef t)]
+
+def jsonField (f : IntroField) : Json :=
+  .obj [("name", jOptStr f.name), ("type", jOpt jsonTypeRef f.ty), ("isDeprecated", jOptBool f.isDeprecated),
+        ("deprecationReason", jOptStr f.deprecationReason)]
+def jsonInputValue (v : IntroInputValue) : Json := .obj [("name", .str v.name), ("type", jsonTypeRef v.ty)]
+def jsonEnumValue (v : IntroEnumValue) : Json := .obj [("name", jOptStr v.name)]
+def jsonFullType (t : FullType) : Json :=
+  .obj [("kind", jOptStr t.kind), ("name", jOptStr t.name), ("fields", jOpt (jArr jsonField) t.fields),
+        ("inputFields", jOpt (jArr jsonInputValue) t.inputFields),
+        ("interfaces", jOpt (jArr jsonTypeRef) t.interfaces),
+        ("enumValues", jOpt (jArr jsonEnumValue) t.enumValues),
+        ("possibleTypes", jOpt (jArr jsonTypeRef) t.possibleTypes), ("isOneOf", jOptBool t.isOneOf)]
+def jsonRoot (n : Option String) : Json := .obj [("name", jOptStr n)]
+def jsonSchema (x : IntroSchema) : Json :=
+  .obj [("queryType", jOpt jsonRoot x.queryType), ("mutationType", jOpt jsonRoot x.mutationType),
+        ("subscriptionType", jOpt jsonRoot x.subscriptionType),
+        ("types", jOpt (jArr (jOpt jsonFullType)) x.types)]
+/-- the response text: bare `{"__schema": …}` or wrapped in `{"data": …}` -/
+def jsonResponse (wrapped : Bool) (x : IntroSchema) : Json :=
+  if wrapped then .obj [("data", .obj [("__schema", jsonSchema x)])] else .obj [("__schema", jsonSchema x)]
+
+def refDepth : TypeRef → Nat
+  | .mk _ _ none => 1
+  | .mk _ _ (some t) => refDepth t + 1
+
+def fullTypeRefs (t : FullType) : List TypeRef :=
+  (t.fields.getD []).filterMap (·.ty) ++ (t.inputFields.getD []).map (·.ty) ++ t.interfaces.getD [] ++
+  t.possibleTypes.getD []
+def schemaRefs (x : IntroSchema) : List TypeRef := ((x.types.getD []).filterMap id).flatMap fullTypeRefs
+/-- no `ofType` chain is longer than the decoder's recursion limit -/
+def DepthOk (x : IntroSchema) : Prop := ∀ r ∈ schemaRefs x, refDepth r ≤ typeRefFuel
+instance (x : IntroSchema) : Decidable (DepthOk x) := by unfold DepthOk; infer_instance
+
+theorem optMember_str (kvs : List (String × Json)) (k : String) (x : Option String)
+    (h : Json.lookup k kvs = some (jOptStr x)) : optMember kvs k decStr = some x := by
+  cases x <;> simp [optMember, h, jOptStr, decStr]
+
+theorem optMember_bool (kvs : List (String × Json)) (k : String) (x : Option Bool)
+    (h : Json.lookup k kvs = some (jOptBool x)) : optMember kvs k decBool = some x := by
+  cases x <;> simp [optMember, h, jOptBool, decBool]
+
+theorem optMember_absent {α} (kvs : List (String × Json)) (k : String) (dec : Json → Dec α)
+    (h : Json.lookup k kvs = none) : optMember kvs k dec = some none := by
+  simp [optMember, h]
+
+theorem optMember_jOpt {α} (kvs : List (String × Json)) (k : String) (dec : Json → Dec α) (r : α → Json)
+    (x : Option α) (h : Json.lookup k kvs = some (jOpt r x)) (hr : ∀ v, (r v).isNull = false)
+    (hd : ∀ v, x = some v → dec (r v) = some v) : optMember kvs k dec = some x := by
+  cases x with
+  | none => simp [optMember, h, jOpt]
+  | some v =>
+    have h1 := hr v
+    have h2 := hd v rfl
+    simp only [optMember, h, jOpt]
+    cases hj : r v <;> simp_all [Json.isNull]
+
+theorem decList_jArr {α} (dec : Json → Dec α) (r : α → Json) (l : List α) (h : ∀ x ∈ l, dec (r x) = some x) :
+    decList dec (jArr r l) = some l := by
+  simp only [decList, jArr]
+  induction l with
+  | nil => rfl
+  | cons x l ih =>
+    have hx := h x (by simp)
+    have hl := ih fun y hy => h y (by simp [hy])
+    simp [List.mapM_cons, hx, hl]
+
+theorem decOpt_jOpt {α} (dec : Json → Dec α) (r : α → Json) (x : Option α) (hr : ∀ v, (r v).isNull = false)
+    (hd : ∀ v, x = some v → dec (r v) = some v) : decOpt dec (jOpt r x) = some x := by
+  cases x with
+  | none => rfl
+  | some v =>
+    have h1 := hr v
+    have h2 := hd v rfl
+    simp only [jOpt]
+    cases hj : r v <;> simp_all [Json.isNull, decOpt]
+
+theorem jsonTypeRef_notNull (r : TypeRef) : (jsonTypeRef r).isNull = false := by
+  cases r with
+  | mk k n o => cases o <;> rfl
+
+theorem decTypeRef_json (r : TypeRef) (fuel : Nat) (h : refDepth r ≤ fuel) :
+    decTypeRef fuel (jsonTypeRef r) = some r := by
+  fun_induction jsonTypeRef r generalizing fuel with
+  | case1 k n =>
+    cases fuel with
+    | zero => simp [refDepth] at h
+    | succ fuel =>
+      simp only [decTypeRef, asObj, bind, Option.bind]
+      rw [optMember_str _ "kind" k rfl, optMember_str _ "name" n rfl]
+      rfl
+  | case2 k n t ih =>
+    cases fuel with
+    | zero => simp [refDepth] at h
+    | succ fuel =>
+      have := ih fuel (by simp [refDepth] at h; omega)
+      simp only [decTypeRef, asObj, bind, Option.bind]
+      rw [optMember_str _ "kind" k rfl, optMember_str _ "name" n rfl,
+        optMember_jOpt _ "ofType" _ jsonTypeRef (some t) rfl jsonTypeRef_notNull
+          (fun v hv => by cases hv; exact this)]
+      rfl
+
+theorem decField_json (f : IntroField) (h : ∀ r, f.ty = some r → refDepth r ≤ typeRefFuel) :
+    decField (jsonField f) = some f := by
+  obtain ⟨name, ty, isDep, reason⟩ := f
+  simp only [decField, jsonField, asObj, bind, Option.bind]
+  rw [optMember_str _ "name" name rfl, optMember_absent _ "description" _ rfl, optMember_absent _ "args" _ rfl,
+    optMember_jOpt _ "type" _ jsonTypeRef ty rfl jsonTypeRef_notNull (fun v hv => decTypeRef_json v _ (h v hv)),
+    optMember_bool _ "isDeprecated" isDep rfl, optMember_str _ "deprecationReason" reason rfl]
+  rfl
+
+theorem decInputValue_json (v : IntroInputValue) (h : refDepth v.ty ≤ typeRefFuel) :
+    decInputValue (jsonInputValue v) = some v := by
+  obtain ⟨name, ty⟩ := v
+  simp only [decInputValue, jsonInputValue, asObj, bind, Option.bind, reqMember, Json.lookup]
+  rw [optMember_absent _ "description" _ rfl, optMember_absent _ "defaultValue" _ rfl]
+  simp [decStr, decTypeRef_json ty _ h]
+
+theorem decEnumValue_json (v : IntroEnumValue) : decEnumValue (jsonEnumValue v) = some v := by
+  obtain ⟨name⟩ := v
+  simp only [decEnumValue, jsonEnumValue, asObj, bind, Option.bind]
+  rw [optMember_str _ "name" name rfl, optMember_absent _ "description" _ rfl,
+    optMember_absent _ "isDeprecated" _ rfl, optMember_absent _ "deprecationReason" _ rfl]
+  rfl
+
+theorem jArr_notNull {α} (r : α → Json) (l : List α) : (jArr r l).isNull = false := rfl
+
+theorem decFullType_json (t : FullType) (h : ∀ r ∈ fullTypeRefs t, refDepth r ≤ typeRefFuel) :
+    decFullType true (jsonFullType t) = some t := by
+  obtain ⟨kind, name, fields, inputFields, interfaces, enumValues, possibleTypes, isOneOf⟩ := t
+  simp only [fullTypeRefs, List.mem_append, List.mem_filterMap, List.mem_map] at h
+  simp only [decFullType, jsonFullType, asObj, bind, Option.bind, if_true]
+  rw [optMember_str _ "kind" kind rfl, optMember_str _ "name" name rfl, optMember_absent _ "description" _ rfl,
+    optMember_jOpt _ "fields" _ (jArr jsonField) fields rfl (jArr_notNull _)
+      (fun l hl => decList_jArr _ _ l fun f hf => decField_json f fun r hr =>
+        h r (.inl (.inl (.inl ⟨f, by simp [hl, hf], hr⟩)))),
+    optMember_jOpt _ "inputFields" _ (jArr jsonInputValue) inputFields rfl (jArr_notNull _)
+      (fun l hl => decList_jArr _ _ l fun v hv => decInputValue_json v
+        (h _ (.inl (.inl (.inr ⟨v, by simp [hl, hv], rfl⟩))))),
+    optMember_jOpt _ "interfaces" _ (jArr jsonTypeRef) interfaces rfl (jArr_notNull _)
+      (fun l hl => decList_jArr _ _ l fun r hr => decTypeRef_json r _ (h r (.inl (.inr (by simp [hl, hr]))))),
+    optMember_jOpt _ "enumValues" _ (jArr jsonEnumValue) enumValues rfl (jArr_notNull _)
+      (fun l _ => decList_jArr _ _ l fun v _ => decEnumValue_json v),
+    optMember_jOpt _ "possibleTypes" _ (jArr jsonTypeRef) possibleTypes rfl (jArr_notNull _)
+      (fun l hl => decList_jArr _ _ l fun r hr => decTypeRef_json r _ (h r (.inr (by simp [hl, hr])))),
+    optMember_bool _ "isOneOf" isOneOf rfl]
+  rfl
+
+theorem decNameOnly_json (n : Option String) : decNameOnly (jsonRoot n) = some n := by
+  simp only [decNameOnly, jsonRoot, asObj, bind, Option.bind]
+  exact optMember_str _ "name" n rfl
+
+theorem jsonFullType_notNull (t : FullType) : (jsonFullType t).isNull = false := rfl
+
+theorem decSchema_json (x : IntroSchema) (h : DepthOk x) : decSchema true (jsonSchema x) = some x := by
+  obtain ⟨q, m, s, types⟩ := x
+  simp only [DepthOk, schemaRefs, List.mem_flatMap, List.mem_filterMap] at h
+  simp only [decSchema, jsonSchema, asObj, bind, Option.bind]
+  rw [optMember_jOpt _ "queryType" _ jsonRoot q rfl (fun _ => rfl) (fun v _ => decNameOnly_json v),
+    optMember_jOpt _ "mutationType" _ jsonRoot m rfl (fun _ => rfl) (fun v _ => decNameOnly_json v),
+    optMember_jOpt _ "subscriptionType" _ jsonRoot s rfl (fun _ => rfl) (fun v _ => decNameOnly_json v),
+    optMember_jOpt _ "types" _ (jArr (jOpt jsonFullType)) types rfl (jArr_notNull _)
+      (fun l hl => decList_jArr _ _ l fun t ht => decOpt_jOpt _ _ t jsonFullType_notNull fun t' ht' =>
+        decFullType_json t' fun r hr => h r ⟨t', ⟨some t', by simp [hl, ← ht', ht], rfl⟩, hr⟩),
+    optMember_absent _ "directives" _ rfl]
+  rfl
+
+/-- **serde round trip of the introspection shape**: the JSON text of an introspection value (bare or
+wrapped in `data`, absent members written as `null`) is decoded back to that value -/
+theorem parseIntro_json (wrapped : Bool) (x : IntroSchema) (h : DepthOk x) :
+    parseIntro true (jsonResponse wrapped x) = some (some x) := by
+  have hc : decContainer true (.obj [("__schema", jsonSchema x)]) = some (some x) := by
+    simp only [decContainer, asObj, bind, Option.bind]
+    exact optMember_jOpt _ "__schema" _ jsonSchema (some x) rfl (fun _ => rfl)
+      (fun v hv => by cases hv; exact decSchema_json x h)
+  cases wrapped
+  · simp only [parseIntro, jsonResponse, Bool.false_eq_true, if_false, asObj, bind, Option.bind, reqMember]
+    simp [Json.lookup, hc]
+  · simp only [parseIntro, jsonResponse, if_true, asObj, bind, Option.bind, reqMember]
+    simp [Json.lookup, hc]
+
+/-- nesting depth of a type expression (= length of its `ofType` chain) -/
+def gDepth : GTy → Nat
+  | .named _ => 1
+  | .list t => gDepth t + 1
+  | .nonNull t => gDepth t + 1
+
+theorem refDepth_toTypeRef (k : String) (t : GTy) : refDepth (C13.toTypeRef k t) = gDepth t := by
+  induction t <;> simp_all [C13.toTypeRef, refDepth, gDepth]
+
+/-- every type expression of the schema is at most 128 levels deep (list / non-null wrappers + 1) -/
+def AS.DepthOk (a : AS) : Prop :=
+  (∀ i ∈ a.interfaces, ∀ f ∈ i.fields, gDepth f.ty ≤ 128) ∧
+  (∀ o ∈ a.objects, ∀ f ∈ o.fields, gDepth f.ty ≤ 128) ∧
+  (∀ i ∈ a.inputs, ∀ f ∈ i.fields, gDepth f.2 ≤ 128)
+instance (a : AS) : Decidable a.DepthOk := by unfold AS.DepthOk; infer_instance
+
+theorem depthOk_introOf (a : AS) (bs : List String) (h : a.DepthOk) : DepthOk (introOf bs a) := by
+  obtain ⟨h1, h2, h3⟩ := h
+  intro r hr
+  simp only [schemaRefs, introOf, introSchemaOf, Option.getD_some, filterMap_id_map_some, introTypes,
+    List.flatMap_append, List.mem_append, List.mem_flatMap, List.mem_map] at hr
+  have hnamed : ∀ n, refDepth (namedRef a n) ≤ typeRefFuel := fun n => by simp [namedRef, refDepth, typeRefFuel]
+  have hfield : ∀ fs : List AField, (∀ f ∈ fs, gDepth f.ty ≤ 128) →
+      r ∈ (fs.map (introField a)).filterMap (·.ty) → refDepth r ≤ typeRefFuel := by
+    intro fs hfs hm
+    simp only [List.mem_filterMap, List.mem_map] at hm
+    obtain ⟨_, ⟨f, hf, rfl⟩, hty⟩ := hm
+    simp only [introField, Option.some.injEq] at hty
+    subst hty
+    rw [typeRefOf, refDepth_toTypeRef]; exact hfs f hf
+  rcases hr with (((((⟨_, ⟨x, _, rfl⟩, hr⟩ | ⟨_, ⟨x, _, rfl⟩, hr⟩) | ⟨_, ⟨x, _, rfl⟩, hr⟩) |
+    ⟨_, ⟨x, hx, rfl⟩, hr⟩) | ⟨_, ⟨x, hx, rfl⟩, hr⟩) | ⟨_, ⟨x, _, rfl⟩, hr⟩) | ⟨_, ⟨x, hx, rfl⟩, hr⟩
+  · simp [fullTypeRefs, introScalar] at hr
+  · simp [fullTypeRefs, introScalar] at hr
+  · simp [fullTypeRefs, introEnum] at hr
+  · simp only [fullTypeRefs, introIface, Option.getD_some, Option.getD_none, List.map_nil, List.append_nil,
+      List.mem_append, List.mem_map] at hr
+    rcases hr with hr | ⟨o, _, rfl⟩
+    · exact hfield _ (h1 x hx) hr
+    · exact hnamed _
+  · simp only [fullTypeRefs, introObj, Option.getD_some, Option.getD_none, List.map_nil, List.append_nil,
+      List.mem_append, List.mem_map] at hr
+    rcases hr with hr | ⟨n, _, rfl⟩
+    · exact hfield _ (h2 x hx) hr
+    · exact hnamed _
+  · simp only [fullTypeRefs, introUnion, Option.getD_some, Option.getD_none, List.map_nil, List.filterMap_nil,
+      List.nil_append, List.mem_map] at hr
+    obtain ⟨n, _, rfl⟩ := hr
+    exact hnamed _
+  · simp only [fullTypeRefs, introInput, Option.getD_some, Option.getD_none, List.filterMap_nil,
+      List.nil_append, List.append_nil, List.map_map, List.mem_map] at hr
+    obtain ⟨f, hf, rfl⟩ := hr
+    simp only [Function.comp]
+    rw [typeRefOf, refDepth_toTypeRef]; exact h3 x hx f hf
+
+/-- **C07 at the level of the schema files** (`.graphql` text after parsing vs `.json` text after
+`serde_json::from_str`): same `Outcome Schema`, bare or `data`-wrapped response. -/
+theorem frontends_equal_json (a : AS) (ex wrapped : Bool) (bs : List String) (hw : WfAS a)
+    (hex : ex = true ∨ a.DefaultRoots) (hbs : ∀ b ∈ bs, b ∈ Schema.defaultScalars) (hd : a.DepthOk) :
+    Sdl.fromSdl (sdlOf ex a) = Intro.fromJson true (jsonResponse wrapped (introOf bs a)) := by
+  rw [Intro.fromJson, parseIntro_json wrapped _ (depthOk_introOf a bs hd)]
+  exact frontends_equal a ex bs hw hex hbs
+
+example : exAS.DepthOk := by decide
+
+/-- the depth bound is needed *in the model* (`typeRefFuel` mirrors serde_json's recursion limit): a field of
+type `[[…[Int]…]]` with 128 list wrappers is accepted from SDL and rejected from JSON.  (The SDL side of the
+model starts from the parsed document; any limit of `graphql_parser` itself is outside it.) -/
+def deepList : Nat → GTy
+  | 0 => .named "Int"
+  | n + 1 => .list (deepList n)
+
+set_option maxRecDepth 10000 in
+example :
+    let a : AS := { objects := [⟨"O", [], [⟨"f", deepList 128, none⟩]⟩] }
+    WfAS a ∧ ¬ a.DepthOk ∧ (Sdl.fromSdl (sdlOf true a)).toOption.isSome = true ∧
+    Intro.fromJson true (jsonResponse false (introOf [] a)) = .error (.panic "serde_json::from_str(..).unwrap()") :=
+  ⟨by decide, by decide, by decide, by rfl⟩
+example : (Intro.fromJson true (jsonResponse true (introOf Schema.defaultScalars exAS))).toOption = some exSchema := by
+  decide
+
+end JsonText
 
 end C07
 end GqlVerif
